@@ -451,6 +451,7 @@ struct PropBase
 {
   std::string name;
   int cases = 100;
+  bool noShrink = false;  // statistical (timing-window) properties: a shrunk case is no more likely to fail, only slower
   virtual ~PropBase() = default;
   virtual bool run(uint64_t seed, double scale, int maxSize) = 0;
   virtual int replay(std::istream &is, bool verbose) = 0;  // 0 pass, 1 fail
@@ -500,6 +501,7 @@ struct Prop : PropBase
     params.maxSuccess = std::max(1, (int)std::llround(cases * scale));
     params.maxSize = maxSize;
     params.maxDiscardRatio = 10;
+    params.disableShrinking = noShrink;
     rc::detail::TestMetadata md;
     md.id = name;
     md.description = name;
